@@ -7,7 +7,7 @@
 From Coq Require Import List ZArith QArith Bool.
 From DV Require Import Base.PyList Model.C05_Nsga2 Model.C05_Spec Model.C05_CrowdSpec
      Proofs.C05_Spec Proofs.C05_Nsga2 Proofs.C05_QInst Proofs.C05_Crowding
-     Proofs.C05_CutFront Proofs.C05_Depth Proofs.C05_Extremes Proofs.C05_FloatOrd.
+     Proofs.C05_CutFront Proofs.C05_Depth Proofs.C05_Extremes Proofs.C05_FloatOrd Proofs.C05_All.
 Import ListNotations.
 Local Open Scope nat_scope.
 
@@ -95,6 +95,20 @@ Proof.
   exact (crowding_cut f_ops pop k fronts r W F S not_nan fltb_asym fltb_ntrans lastf E NN x dx y dy Ix Iy Sx Ny).
 Qed.
 Print Assumptions C05_nsga2_crowding_cut_float.
+
+(* k >= n: the whole population comes back (docstring: "no effect other than sorting the
+   population according to their front rank") and, for any k, depths never decrease along the result *)
+Theorem C05_nsga2_all_when_k_ge_n : forall o (pop : list (ind (V o))) k fronts r,
+  wf_pop pop -> fronts_correct pop k fronts -> sel_nsga2 o fronts k = Some r ->
+  length pop <= k -> Permutation.Permutation (uids r) (uids pop).
+Proof. exact all_when_k_ge_n. Qed.
+Print Assumptions C05_nsga2_all_when_k_ge_n.
+
+Theorem C05_nsga2_rank_ordered : forall o (pop : list (ind (V o))) k fronts r,
+  wf_pop pop -> fronts_correct pop k fronts -> sel_nsga2 o fronts k = Some r ->
+  Sorting.Sorted.StronglySorted (fun x y => depth pop x <= depth pop y) r.
+Proof. exact rank_ordered. Qed.
+Print Assumptions C05_nsga2_rank_ordered.
 
 (* the cut front is exactly one depth class of the population (so "within the cut front" in the
    theorems above means: among the individuals of that depth) *)
